@@ -502,6 +502,12 @@ func (p *Program) topLevel() {
 	// GLSL interface block: [qualifiers] buffer|uniform BlockName { members } [instance];
 	if (has(qs, "buffer") || has(qs, "uniform")) && p.peek().k == 'i' && p.peekAt(1).k == 'p' && p.peekAt(1).s == "{" {
 		bname := p.next()
+		if _, dup := p.structs[bname.s]; dup {
+			p.Dups = append(p.Dups, "interface block "+bname.s+" has the name of a struct type")
+		}
+		if _, dup := p.funcs[bname.s]; dup {
+			p.Dups = append(p.Dups, "interface block "+bname.s+" has the name of a function")
+		}
 		st := p.structBody(bname.s)
 		class := "buffer"
 		if !has(qs, "buffer") {
